@@ -1,10 +1,12 @@
 SPECIFICATION Spec
-CONSTANTS Pfx = {"A", "B"} MaxHops = 1 MaxCid = 1 QCap = 100 MaxDepth = 6 LeakDetached = FALSE AnyState = FALSE MaxInst = 4 Lifecycle = TRUE UnloadClears = FALSE CandInit = {FALSE}
+CONSTANTS Pfx = {"A", "B"} MaxHops = 1 MaxCid = 1 QCap = 100 MaxDepth = 6 LeakDetached = FALSE AnyState = FALSE MaxInst = 4 Lifecycle = TRUE UnloadClears = FALSE CandInit = {FALSE} CloseWays = {"closeR", "remove"} ReasonDecides = FALSE ReadyInit = FALSE
 INVARIANT TypeOK
 INVARIANT NoRawForAnon
 INVARIANT TunnelledOnlyOverReadyRightCircuit
 INVARIANT QueueBounded
 INVARIANT PlainUnaffected
 INVARIANT SwitchFollowsRequests
+INVARIANT StateFollowsClose
 PROPERTY ImplRefinesAbs
 PROPERTY PlainLeavesQueue
+PROPERTY ClosedForGood
